@@ -14,7 +14,7 @@ if ! git -C $WT apply $MD/patch.diff 2>/tmp/mutwt/$name.applyerr; then
 fi
 mkdir -p /tmp/mutwt/ev-$name
 for p in $props; do
-  out=$(cd /verif && VERIF_ROOT=/verif OFV_EVIDENCE_DIR=/tmp/mutwt/ev-$name ./bin/ofverify check $p --repo $WT 2>&1)
+  out=$(cd /verif && VERIF_ROOT=/verif OFV_EVIDENCE_DIR=/tmp/mutwt/ev-$name ${OFV_BIN:-./bin/ofverify} check $p --repo $WT 2>&1)
   rc=$?
   if [ $rc -eq 1 ] && echo "$out" | grep -q "^VIOLATION property=$p"; then
     echo "$name $p DETECTED: $(echo "$out" | grep -E "^(VIOLATION|UNDECIDED|UNMAPPED) $p" | head -2 | cut -c1-220 | tr '\n' '|')"
